@@ -161,8 +161,14 @@ func decideStuck(r *vf.Run, scs []*scenario, sig string, nparked int) {
 		replay := map[string]any{"case": sc.idx, "scenario": sc.desc, "parked_workload_goroutines": nparked, "goroutines": clip(sig, 4000)}
 		pendingInv, waitingProbe, running := 0, 0, 0
 		for _, inv := range sc.allInvocations() {
-			if inv.called.Load() && !inv.returned.Load() {
-				pendingInv++
+			owed := false // a body of this invocation is a probe that waits for a cancellation it is owed
+			for k := 0; k < inv.nslots(); k++ {
+				if inv.slots[k].state.Load() == 2 {
+					owed = true
+				}
+			}
+			if inv.called.Load() && !inv.returned.Load() && !owed {
+				pendingInv++ // (an invocation blocked behind its own uncancelled probe is reported by clause 5 only)
 			}
 			for k := 0; k < inv.nslots(); k++ {
 				switch inv.slots[k].state.Load() {
@@ -182,7 +188,7 @@ func decideStuck(r *vf.Run, scs []*scenario, sig string, nparked int) {
 			// clause 5: the body saw a prioritized begin after its own start, is still
 			// running, and at quiescence its ctx is still not done
 			r.Violate("cancel:never-delivered-to-running-body",
-				fmt.Sprintf("%d bodies that were running when a prioritized task began are still waiting for ctx.Done() at quiescence (no goroutine left that could cancel them)", waitingProbe), replay)
+				fmt.Sprintf("%d bodies that were running while a prioritized task was in progress (they saw a task.pbegin after their start, or DoPrioritizedTask had returned and DonePrioritizedTask had not been called yet) are still waiting for ctx.Done() at quiescence: no goroutine is left that could cancel them, no further prioritized task was begun", waitingProbe), replay)
 			decided = true
 		}
 		if pendingInv > 0 && pb == dc && pe == dc {
